@@ -355,7 +355,11 @@ func runChainCase(j chainJob, idx int, variants []chainVariant) *chainResult {
 				axis, field, a, b := localiseChain(j.p, bc.wires, cr.ref, v, got, k)
 				mk(k, axis, field, fmt.Sprintf("the chain of blocks [%s] executed on two fresh nodes gives different %s after block %d (axis %s; variant %s): %s vs %s",
 					j.describe(k), field, k+1, axis, v, clip(a), clip(b)), &v, a, b)
-				break // later blocks of this variant run on a different parent state
+				if field != "state-read-back" {
+					break // later blocks of this variant run on a different parent state
+				}
+				// only what the node READS BACK differs, the roots still agree: the nodes stay on one chain, so go on and
+				// see what the later blocks make of it
 			}
 		}
 	}
@@ -387,4 +391,60 @@ func slot1Of(o *obs) string {
 		}
 	}
 	return "?"
+}
+
+// replayChain re-executes a stored chain case under the thorough variant set.
+func replayChain(c caseID) bool {
+	var p *prestate
+	for _, q := range buildPrestates([]string{c.Kind}) {
+		if q.Name == c.Pre {
+			p = q
+		}
+	}
+	if p == nil {
+		fatal("unknown parent state", c.Kind, c.Pre)
+	}
+	var blocks [][]int
+	for _, b := range c.Chain {
+		var seq []int
+		for _, nm := range b {
+			if nm == "(empty)" {
+				continue
+			}
+			found := false
+			for i, t := range alphabet {
+				if t.Name == nm {
+					seq = append(seq, i)
+					found = true
+				}
+			}
+			if !found {
+				fatal("unknown template", nm)
+			}
+		}
+		blocks = append(blocks, seq)
+	}
+	j := chainJob{p, blocks}
+	fmt.Printf("replaying chain [%s]: recorded axis=%s field=%s\n", j.describe(len(blocks)-1), c.Axis, c.Field)
+	vs := []chainVariant{refChainVariant, {Cfg: cfgFromBits(0), Rep: 1}, {Cfg: cfgFromBits(0), Rep: 2}}
+	for b := 1; b < 16; b++ {
+		vs = append(vs, chainVariant{Cfg: cfgFromBits(b)})
+	}
+	for k := 1; k <= len(blocks); k++ {
+		for _, b := range cornerCfgs {
+			vs = append(vs, chainVariant{Cfg: cfgFromBits(b), RestartAfter: k})
+		}
+		vs = append(vs, chainVariant{Cfg: cfgFromBits(0b0010), RestartAfter: k, EnableSnap: true}, chainVariant{Cfg: cfgFromBits(0b0011), RestartAfter: k, EnableSnap: true})
+	}
+	if c.ChainVariant != nil {
+		vs = append(vs, *c.ChainVariant)
+	}
+	cr := runChainCase(j, 0, vs)
+	for k, o := range cr.ref {
+		fmt.Printf("  reference after block %d: app hash %s, %d receipts, read back: %s\n", k+1, o.AppHash, len(o.Receipts), o.ReadBack)
+	}
+	for _, f := range cr.findings {
+		fmt.Printf("  axis=%s field=%s: %s\n", f.axis, f.field, f.what)
+	}
+	return len(cr.findings) > 0
 }
